@@ -11,6 +11,7 @@ package sched
 
 import (
 	"fmt"
+	"os"
 	"runtime/debug"
 	"sort"
 	"strings"
@@ -305,7 +306,13 @@ func point(label string, enabled func() bool, yield bool) {
 	if s.aborting {
 		panic(abortSentinel)
 	}
+	if traceOn {
+		fmt.Fprintf(os.Stderr, "  sched: %-10s resumes at %s\n", t.Name, label)
+	}
 }
+
+// traceOn (environment variable SCHED_TRACE) prints which thread resumes at which point: a debugging aid for replays.
+var traceOn = os.Getenv("SCHED_TRACE") != ""
 
 // Quiesce parks the calling thread until no other thread is enabled
 // (spinners do not count). Used by sequential history drivers.
